@@ -362,8 +362,8 @@ Durs == 0..MaxDelay
 \* (one quantifier per action so that TLC's coverage names every action)
 Ops ==
   \/ \E d \in Durs, tok \in Toks : Set(d, tok)
-  \/ \E i \in 1..Len(hs) : Cancel(i)
-  \/ \E i \in 1..Len(hs), d \in Durs : Reset(i, d)
+  \/ \E i \in 1..MaxArm : Cancel(i)
+  \/ \E i \in 1..MaxArm, d \in Durs : Reset(i, d)
   \/ Poll
   \/ \E c \in Conts, d \in Durs, tok \in Toks : C_New(c, d, tok)
   \/ \E c \in Conts, d \in Durs : C_NewEmpty(c, d)
